@@ -33,6 +33,7 @@ struct OpRes {
 	bool token = false;    // generate returned a token
 	uint64_t reqs = 0;
 	bool fired = false;
+	bool lost_earlier = false; // a load into a set that already held items removed or replaced one of them
 	ParseRecord parse;
 	DumpRecord dump;
 };
@@ -361,6 +362,12 @@ static OpRes run_op(Scenario &sc, OomState &st, const Step &s, int64_t fail_at, 
 		int via = (int)s.I("via") % 5;
 		jwk_set_t *set = NULL;
 		jwk_set_t *into = s.I("into") ? st.sets[slot] : NULL;
+		// what the set held before: a load appends, whether it succeeds or reports failure (other objects may
+		// hold pointers to these items)
+		std::vector<const jwk_item_t *> held;
+		if (into)
+			for (size_t q = 0; q < jwks_item_count(into); q++)
+				held.push_back(jwks_item_get(into, q));
 		StreamState ss;
 		FILE *f = NULL;
 		std::string path;
@@ -406,6 +413,12 @@ static OpRes run_op(Scenario &sc, OomState &st, const Step &s, int64_t fail_at, 
 			if (set != into)
 				r.res = "returned-other-set ";
 			set = into;
+			if (jwks_item_count(into) < held.size())
+				r.lost_earlier = true;
+			else
+				for (size_t q = 0; q < held.size(); q++)
+					if (jwks_item_get(into, q) != held[q])
+						r.lost_earlier = true;
 		} else {
 			if (st.sets[slot]) {
 				Armed a;
@@ -832,6 +845,14 @@ static void oom_exec(Ctx &ctx)
 						if (rr.parse.valid)
 							ctx.count("probe:allocation_failure_inside_jansson_parse");
 					}
+				}
+				if (rr.lost_earlier) {
+					ctx.violation("C17", "load-destroys-keys-already-in-the-set", opn,
+						      strf("scenario op%zu %s (a second document loaded into a set that already holds keys) with allocator request %llu returning NULL: items that were in the "
+							   "set before the call are gone or replaced afterwards (result '%s'); builders and checkers may hold pointers to them",
+							   i, opn.c_str(), (unsigned long long)k, show(rr.res, 300).c_str()));
+					stop = true;
+					continue;
 				}
 				if (rr.res == base[i].res) {
 					if (faulted && rr.fired)
